@@ -501,6 +501,9 @@ func (m *Monitor) afterRestart(n *Node) {
 // maxHeightGenerated of the last block per validator) and checks the C15 clause "a generator never signs two
 // contradicting headers". A broken clause also removes C01's premise for the rest of the run.
 func (m *Monitor) onForged(n *Node) {
+	if n.IsAdversary {
+		return
+	}
 	defer m.Raise()
 	m.expectOwn[n.ID] = true
 	for _, v := range n.Keys {
